@@ -41,6 +41,8 @@ def norm(e):
         return ('call', e[1], tuple(norm(a) for a in e[3]))
     if e[0] == 'via':
         return norm(e[2])
+    if e[0] == 'mutated':
+        return ('mutated', e[1], norm(e[3]) if len(e) > 3 and e[3] is not None else None, tuple(norm(a) for a in (e[4] if len(e) > 4 else ())))
     if e[0] in ('ref', 'refm', 'deref'):
         return norm(e[1])
     if e[0] == 'cast':
